@@ -61,7 +61,7 @@ CLAIMED['C02'] = dict(
     design='§7 C02', technique='symbolic execution of rustc MIR with an explicit Rc/strong-count heap model + SMT (z3)')
 CLAIMED['C03'] = dict(
     text='Bounded symbolic model checking of the real MIR of ChainEvaluator::{new, give, run_top, run_top_popped, finish}, Precedence::tighter_than_when_before and add_trace on chains of '
-         '1..3 operators (all associativity assignments; length 4 sampled in the quick tier, all in thorough) where every operator precedence is an arbitrary f64 (NaN, +-inf, every real, ties) '
+         '1..3 operators (all associativity assignments; length 4 sampled in the quick tier; lengths 4 and 5 complete in the thorough tier: 74 568 obligations) where every operator precedence is an arbitrary f64 (NaN, +-inf, every real, ties) '
          'and "f chains with g" is an arbitrary Boolean per (merged) operator pair; Func::run is an application recorder. The application tree and the application order equal the '
          'leftmost-handle operator-precedence reduction (written independently, evaluated under each implementation path condition) for every assignment.',
     note='Stubs: Func::run (recorder), Func::try_chain (arbitrary relation). Outside: longer chains, evaluation order of operand/operator expressions in Expr::Chain and its single-operator fast path, '
